@@ -180,3 +180,31 @@ def fam_repr_states(seed, shard, nshards, n):
                 yield line, exp, 'obs-' + enc + ('-err' if exp.startswith('ERR') else '')
         finally:
             reset_gv_debug(True)
+
+
+def fam_space_contains(seed, shard, nshards, n):
+    """StateSpace.contains / ObservationSpace.contains on members and near-members (undeclared type,
+    undeclared colour, agent outside, wrong shape, bad held item)"""
+    rng = random.Random(f'contains-{seed}-{shard}')
+    for k in range(n // nshards):
+        kinds = rng.sample(GRID_KINDS, rng.randint(1, 9))
+        colors = rng.sample(COLORS[1:], rng.randint(0, 4))
+        h, w = rng.randint(1, 5), rng.randint(1, 5)
+        if k % 2 == 0:
+            sp = StateSpace(Shape(h, w), kinds, colors)
+            s = random_member_state(rng, h, w, kinds, colors, p_bad=0.5)
+            try:
+                exp = 'T' if sp.contains(s) else 'F'
+            except Exception as e:
+                exp = enc_exc(e)
+            yield f'sscontains {space_tok(h, w, kinds, colors)} {enc_state(s)}', exp, 'sscontains-' + exp[:1]
+        else:
+            w |= 1
+            sp = ObservationSpace(Shape(h, w), kinds, colors)
+            s = random_member_state(rng, h, w, kinds + [Hidden], colors, p_bad=0.5)
+            o = Observation(s.grid, s.agent)
+            try:
+                exp = 'T' if sp.contains(o) else 'F'
+            except Exception as e:
+                exp = enc_exc(e)
+            yield f'oscontains {space_tok(h, w, kinds, colors)} {enc_state(o)}', exp, 'oscontains-' + exp[:1]
